@@ -14,7 +14,7 @@
 From Coq Require Import List NArith ZArith Bool Strings.String Lia.
 From V Require Import Base.Bytes Base.Res Gen.StrLeafGen Gen.Consts Gen.Special Gen.Nodes Model.Special
      Model.Scan Model.Strings Model.Entity Model.LinkUrl Model.AutolinkLeaf Model.Spx Model.Ast Model.Inlines
-     Proofs.InlinesProofs Proofs.ParserShapeInl Spec.Shape Spec.HtmlSpec Spec.Valid.
+     Proofs.InlinesProofs Proofs.ParserShapeInl Spec.Shape Spec.HtmlSpec Spec.Valid Spec.ParseValidSpec.
 Import ListNotations.
 Local Open Scope list_scope.
 
@@ -28,9 +28,6 @@ Definition vok (nb : bool) (v : node_value) (ch : list node) : bool :=
 
 Fixpoint ivt (nb : bool) (n : node) : bool :=
   match n with Node v _ ch => vok nb v ch && forallb (ivt nb) ch end.
-
-(* neither CR nor LF *)
-Definition no_nl (s : bytes) : bool := forallb (fun b => negb (beqb b x0a) && negb (beqb b x0d)) s.
 
 Lemma ivt_node nb v sp ch : ivt nb (Node v sp ch) = true <-> vok nb v ch = true /\ forallb (ivt nb) ch = true.
 Proof. cbn [ivt]. apply andb_true_iff. Qed.
